@@ -153,3 +153,93 @@ def k2_dir_overwrite_window(label, action, pre, problem):
     prek = set(_j.dumps(k, sort_keys=True) for k, _ in pre)
     m = what.replace('cache.load(): ', '').split('touched key ', 1)[1].split(' reads ')[0]
     return m in prek and all('reads __absent__' in w and 'touched key' in w for w in problem.get('all', [what]))
+
+
+def _c14_touches_existing(actions, pre):
+    import json as _j
+    prek = set(_j.dumps(k) for k, _ in pre)
+    for a in actions:
+        if a[0] in ('del', 'pop', 'set', 'setdefault') and _j.dumps(a[1]) in prek:
+            return True
+        if a[0] in ('update', 'dump') and any(_j.dumps(k) in prek for k, _ in a[1]):
+            return True
+        if a[0] in ('clear', 'popkeys'):
+            return True
+    return False
+
+
+def _steps(problem):
+    out = []
+    for st in problem.get('steps') or []:
+        who, _, what = st.partition(':')
+        out.append((who, what))
+    return out
+
+
+_LISTING = ('scandir(arch', 'listdir(arch', 'sql:select', 'open(arch.')
+
+
+def _destructive_step(label, steps, reader):
+    """index of the step by which another process makes an existing entry disappear"""
+    idx = None
+    if label.startswith('dir'):
+        for i, (who, st) in enumerate(steps):
+            if who != reader and st.startswith('rename(K_') and not st.startswith('rename(K_.I_'):
+                return i                      # the entry is moved aside
+        return None
+    if label.startswith('file'):
+        for i, (who, st) in enumerate(steps):
+            if who != reader and st.startswith('replace('):
+                idx = i                       # the writer's last replace carries the deletion
+        return idx
+    commits = any(st == 'sql:commit' for who, st in steps if who != reader)
+    deleted = False
+    for i, (who, st) in enumerate(steps):
+        if who == reader:
+            continue
+        if st == 'sql:delete':
+            if not commits:
+                return i
+            deleted = True
+        elif st == 'sql:commit' and deleted:
+            return i
+    return None
+
+
+def k10_list_then_fetch(label, actions, pre, problem):
+    """K10 (C14): dir_archive, sqltable_archive and file_archive iterate by listing the keys and then
+    fetching each entry (file_archive: re-reading the whole file per key); an entry deleted or overwritten
+    by another process in between makes the reader raise KeyError.
+    Matches only schedules of exactly that shape: the failing reader listed the archive BEFORE the step
+    by which the other process makes the entry disappear, and went on reading after it."""
+    if not (label.startswith('dir') or label.startswith('sql') or label.startswith('file')):
+        return False
+    what = problem.get('what', '')
+    if ' failed: KeyError' not in what or not _c14_touches_existing(actions, pre):
+        return False
+    try:
+        reader = what.split('process ', 1)[1].split(' ', 1)[0]
+    except IndexError:
+        return False
+    steps = _steps(problem)
+    d = _destructive_step(label, steps, reader)
+    if d is None:
+        return False
+    listed_before = any(who == reader and st.startswith(_LISTING) for who, st in steps[:d])
+    reads_after = any(who == reader for who, st in steps[d + 1:])
+    if label.startswith('dir'):
+        # a reader that lists the directory after the entry was moved aside does not see it: it must not fail
+        relisted = any(who == reader and st.startswith(('scandir(arch', 'listdir(arch')) for who, st in steps[d + 1:])
+        return listed_before and reads_after and not relisted
+    return listed_before and reads_after
+
+
+def k11_file_opener_rewrites(label, actions, pre, problem):
+    """K11 (C14): every file_archive(...) construction ends in archive.update({}), which reads the file
+    and writes it back: a process that merely opens (or reads) the archive while another one writes can
+    put the older contents back - the completed write is lost."""
+    if not label.startswith('file'):
+        return False
+    what = problem.get('what', '')
+    writers = [a for a in actions if a[0] in ('set', 'del', 'pop', 'update', 'clear', 'dump', 'setdefault', 'popkeys')]
+    return 'after all processes finished the archive holds' in what and len(writers) == 1 and len(actions) >= 2
